@@ -191,8 +191,37 @@ def r10_2(ctx):
                 if isinstance(n, ast.Assign) and any(isinstance(t, ast.Subscript) and U(t.value) == f"{cls}.{name}"
                                                      for t in n.targets):
                     users.append((fn, n))
+        handled = False
+        if True:
+            # table filled / read through setdefault(key, default) or get: the memoised object is handed out and must
+            # never change
+            for fn in ctx.model.methods[cls].values():
+                for n in ast.walk(fn.node):
+                    if isinstance(n, ast.Assign) and isinstance(n.value, ast.Call) and isinstance(n.value.func, ast.Attribute) \
+                            and n.value.func.attr in ("setdefault", "get") and U(n.value.func.value) == f"{cls}.{name}":
+                        handled = True
+                        names = {x.id for t in n.targets for x in ast.walk(t) if isinstance(x, ast.Name)}
+                        muts = _mutations_of(fn, names)
+                        keyvars = names_in(n.value.args[0]) if n.value.args else set()
+                        if muts:
+                            for q, where, what in muts:
+                                out.bad(q, f"mutates a memoised value of {cls}.{name}: {what}", where=where,
+                                        detail="the cached object grows / changes with the arguments of earlier calls: "
+                                               "answers depend on the call history")
+                        else:
+                            out.ok(fn.qname, f"memo {cls}.{name} filled through setdefault and never mutated", where=fn.where(n))
+                        # the value returned must not depend on parameters outside the key
+                        rets = [r for r in ast.walk(fn.node) if isinstance(r, ast.Return) and r.value is not None
+                                and names & names_in(r.value)]
+                        extra = set()
+                        for r in rets:
+                            extra |= (names_in(r.value) & set(fn.params)) - keyvars
+                        if rets and not muts and extra:
+                            out.bad(fn.qname, f"memo key incomplete: the returned entry depends on parameter(s) {sorted(extra)} "
+                                              f"not in the key", where=fn.where(n))
         if not users:
-            out.undecided(f"{cls}.{name}", "memo table without a recognised store `Cls.table[key] = value`")
+            if not handled:
+                out.undecided(f"{cls}.{name}", "memo table without a recognised store `Cls.table[key] = value`")
             continue
         for fn, store in users:
             tgt = [t for t in store.targets if isinstance(t, ast.Subscript)][0]
